@@ -319,6 +319,9 @@ PROPS["C05"] = dict(level="model_checking", explanation="verdict content: per re
 IJ("C03.xq_x_reply", "C03", "h_xq_x_reply", XQ_CALLEES, harness="harness/h_iauth_xq.c", functions=["iauth_xquery_x_reply", "iauth_xquery_x_unlinked", "iauth_xquery_set_account", "iauth_xquery_unref"],
    extra_props=("C02", "C04", "C05", "C07"), cbmc=XQ_UNW, assumptions=SET_ASSUME, bound="service table of 3 slots, names of <= 2 bytes, reply text <= 39 bytes", cls="bounded", timeout=1800, cost=20)
 
+IJ("C05.xq_x_reply.reply71", "C05", "h_xq_x_reply", XQ_CALLEES, harness="harness/h_iauth_xq.c", functions=["iauth_xquery_x_reply", "iauth_xquery_set_account"], tiers=("thorough",),
+   cbmc=["--unwind", "5", "--unwindset", "strlen.0:82,strcmp.0:5,strncmp.0:8,memcmp.0:70,account_is.0:66,iauth_xquery_set_account.0:66,iauth_xquery_set_account.1:67,memset.0:60"],
+   assumptions=SET_ASSUME, bound="service table of 3 slots, reply text <= 71 bytes (account stamps up to the ACCOUNTLEN limit)", cls="bounded", timeout=7200, cost=40, defines=["REPLY_MAX=72"])
 PROPS["C06"] = dict(level="model_checking", explanation="query builder and password shape check by per-function postconditions over the ghost query log; bounded copies in the core handlers")
 for _t0 in range(4):
     for _t1 in range(4):
@@ -338,14 +341,14 @@ for _k in range(22):
        cbmc=IO_UNW, unwind_rules=C09_RULES, cls="bounded",
        bound="string arguments of <= 11 bytes; one concrete <id> <address> <port> prefix with the client-directed formats (the prefix itself: jobs C09.send.prefix.*)",
        defines=["KIND=%d" % _k, "ADDR_MAX=8"] + (["CONCRETE_PREFIX"] if _k < 12 else []), timeout=2400, cost=4)
-for _sp, _nm, _lens in ((1, "id", range(1, 8)), (2, "port", range(1, 6)), (3, "addr", range(1, 9))):
+for _sp, _nm, _lens in ((1, "id", range(1, 7)), (2, "port", range(1, 6)), (3, "addr", range(1, 9))):
     for _ln in _lens:
         IJ("C09.send.prefix.%s%d" % (_nm, _ln), "C09", "h_send", SETM, harness="harness/h_iauth_io.c", stubs=IAUTH_STUBS + ["stubs/stdout_model.c"], functions=["iauth_send"],
            cbmc=IO_UNW, unwind_rules=C09_RULES, cls="bounded", tiers=(("thorough",) if (_nm == "id" and _ln > 5) else ("quick", "thorough")),
-           bound="format d; the %s of the prefix symbolic with printed length %d (ids 0..9999999, ports 0..65535, address texts of 1-8 bytes: one job per length), the other two parts concrete" % (_nm, _ln),
+           bound="format d; the %s of the prefix symbolic with printed length %d (ids 0..999999, ports 0..65535, address texts of 1-8 bytes: one job per length), the other two parts concrete" % (_nm, _ln),
            defines=["KIND=12", "ADDR_MAX=8", "SYM_PART=%d" % _sp, "SYM_DIGITS=%d" % _ln], timeout=2400, cost=20)
 IJ("C09.send.prefix.all", "C09", "h_send", SETM, harness="harness/h_iauth_io.c", stubs=IAUTH_STUBS + ["stubs/stdout_model.c"], functions=["iauth_send"],
-   cbmc=IO_UNW, unwind_rules=C09_RULES, cls="bounded", tiers=("thorough",), bound="format d; id, port and address text (<= 8 bytes) symbolic together",
+   cbmc=IO_UNW, unwind_rules=C09_RULES, cls="bounded", tiers=(), bound="format d; id, port and address text (<= 8 bytes) symbolic together (does not finish: not part of any tier)",
    defines=["KIND=12", "ADDR_MAX=8"], timeout=7200, cost=60, solver="kissat")
 for _p in ("C08", "C09"):
     IJ(_p + ".send_overlong", _p, "h_send_overlong", SETM, harness="harness/h_iauth_io.c", stubs=IAUTH_STUBS + ["stubs/stdout_model.c"], functions=["iauth_send"],
@@ -404,7 +407,7 @@ def _c20_phase_jobs(tier, seed):
             out.append(dict(id="C20.%s.M%d" % (e[9:], m), prop="C20", cls="bounded",
                  bound="%d loaded stub modules, every dependency matrix (2^%d graphs incl. cycles and self loops)%s" % (m, m * m, "" if e == "h_module_postinit" else " that is acyclic"),
                  srcs=["src/common.c"], stubs=["stubs/printf_model.c"], harness="harness/h_module.c", entry=e,
-                 defines=["MODS=%d" % m], checks=["ptr"], remove_bodies=["xmalloc", "xrealloc", "module_get"], late_stubs=["stubs/xmalloc_small.c", "stubs/tramp_module.c"],
+                 defines=["MODS=%d" % m], checks=["ptr"], remove_bodies=["xmalloc", "xrealloc", "module_get"], late_stubs=["stubs/xmalloc_mid.c", "stubs/xrealloc_small.c", "stubs/tramp_module.c"],
                  cbmc=["--unwind", str(m + 2), "--unwinding-assertions", "--object-bits", "10", "--no-malloc-may-fail",
                        "--unwindset", "dispose:2,module_cleanup:2,strcasecmp.0:4,strlen.0:4,strcpy.0:4,vsnprintf.0:12,vsnprintf.1:6,const_string_vector_remove.0:%d" % (2 * m + 2)],
                  functions=fns, assumptions=["S4 dlsym by model (stub modules logging post-init / destructor events)",
@@ -427,7 +430,7 @@ def _c20_jobs(tier, seed):
                  bound="%d stub modules, every dependency matrix (2^%d graphs incl. cycles and self loops), any subset loadable; configuration lists %s" % (m, m * m, ("m%d" % a) if n == 1 else ("m%d, m%d" % (a, b))),
                  srcs=["src/common.c"], stubs=["stubs/printf_model.c"], harness="harness/h_module.c", entry="h_module_graph",
                  defines=["MODS=%d" % m, "LIST_N=%d" % n, "LIST_0=%d" % a, "LIST_1=%d" % b], checks=["ptr"],
-                 remove_bodies=["xmalloc", "xrealloc"], late_stubs=["stubs/xmalloc_small.c"],
+                 remove_bodies=["xmalloc", "xrealloc"], late_stubs=["stubs/xmalloc_mid.c", "stubs/xrealloc_small.c"],
                  cbmc=["--unwind", str(m + 2), "--unwinding-assertions", "--object-bits", "10", "--no-malloc-may-fail",
                        "--unwindset", "dispose:2,module_cleanup:2,strcasecmp.0:4,strlen.0:4,strcpy.0:4,vsnprintf.0:12,vsnprintf.1:6,const_string_vector_remove.0:%d" % (2 * m + 2)],
                  functions=["module_load_list", "module_load", "module_depends", "module_dfs", "module_close_all", "module_cleanup", "module_get", "const_string_vector_remove"],
@@ -470,18 +473,18 @@ CJ("C16.string_value.len7", "C16", "h_string_value", functions=["conf_parse_stri
 CJ("C15.string_list.len3", "C15", "h_string_list_value", functions=["conf_set_string_list_value"], replay=CFG_NATIVE, extra_props=("C16",), bound="lists of <= 3 one-byte items")
 CJ("C14.conf_read", "C14", "h_conf_read", remove=["conf_read_file", "conf_parse_entry", "conf_replace_value"], functions=["conf_read"], extra_props=("C15",),
    cls="proof", bound="", cbmc=["--nondet-static", "--unwindset", "memset.0:200"])
-CJ("C14.parse_string.len8", "C14", "h_parse_string", remove=["xmalloc", "xrealloc"], late_stubs=["stubs/tramp_config.c", "stubs/xmalloc_small.c"],
+CJ("C14.parse_string.len8", "C14", "h_parse_string", remove=["xmalloc", "xrealloc"], late_stubs=["stubs/tramp_config.c", "stubs/xmalloc_small.c", "stubs/xrealloc_small.c"],
    functions=["conf_parse_string", "conf_parse_whitespace"], extra_props=("C16",), bound="file buffers of <= 8 bytes", replay=CFG_NATIVE,
    cbmc=["--unwindset", "memset.0:40"], defines=["TOK_LEN=8"], mem=16, solver="minisat")
 CJ("C14.parse_whitespace.len8", "C14", "h_parse_whitespace", functions=["conf_parse_whitespace"], replay=CFG_NATIVE, extra_props=("C16",), bound="file buffers of <= 8 bytes")
-for _t in range(12):
-    CJ("C16.entry_template.t%02d" % _t, "C16", "h_parse_entry_template", remove=["xmalloc", "xrealloc"], late_stubs=["stubs/tramp_config.c", "stubs/xmalloc_small.c"],
+for _t in range(11):
+    CJ("C16.entry_template.t%02d" % _t, "C16", "h_parse_entry_template", remove=["xmalloc", "xrealloc"], late_stubs=["stubs/tramp_config.c", "stubs/xmalloc_mid.c", "stubs/xrealloc_small.c"],
        functions=["conf_parse_entry", "conf_parse_get_child", "conf_parse_string", "conf_parse_whitespace"], bound="one concrete documented rendering", defines=["TPL=%d" % _t],
        cbmc=["--unwind", "24", "--unwindset", "conf_parse_entry:3,memset.0:200,str_eq.0:17,nth.0:4,strcasecmp.0:4,strcmp.0:4,strdup.0:4,strlen.0:4"], solver="minisat", timeout=900, mem=16)
-CJ("C15.replace_object.omitted", "C15", "h_replace_object_scenario", functions=["conf_replace_value", "conf_parse_string_value"], bound="one concrete scenario (registered block omitted by the new file)",
-   defines=["SCN=0"], remove=["xmalloc", "xrealloc"], late_stubs=["stubs/tramp_config.c", "stubs/xmalloc_small.c"],
+CJ("C15.replace_object.omitted", "C15", "h_replace_object_scenario", functions=["conf_replace_value", "conf_parse_string_value"], bound="one concrete scenario (registered block omitted by the new file; does not finish: not part of any tier)", tiers=(),
+   defines=["SCN=0"], remove=["xmalloc", "xrealloc"], late_stubs=["stubs/tramp_config.c", "stubs/xmalloc_small.c", "stubs/xrealloc_small.c"],
    cbmc=["--unwind", "5", "--unwindset", "conf_replace_value:3,conf_object_cleanup:2,model_set_clear:2,sm_dispose:3,set_clear:2,memset.0:200,strcasecmp.0:4,strcmp.0:4,strdup.0:4,strlen.0:4"], solver="minisat", timeout=900, mem=16)
-CJ("C15.replace_inaddr", "C15", "h_replace_inaddr", functions=["conf_replace_value"], extra_props=("C14",), bound="", cls="proof", tiers=("thorough",),
+CJ("C15.replace_inaddr", "C15", "h_replace_inaddr", functions=["conf_replace_value"], extra_props=("C14",), bound="(does not finish: not part of any tier)", cls="proof", tiers=(),
    cbmc=["--unwind", "4", "--unwindset", "strcasecmp.0:4,conf_replace_value:1,conf_object_cleanup:2,model_set_clear:2,sm_dispose:2,set_clear:2"])
 
 PROPS["C17"] = dict(level="model_checking", explanation="service-table rebuild executed for every small section x previous table (exhaustive enumeration); merge-side hook delivery: known finding F13")
